@@ -190,6 +190,12 @@ func (v *Vue) evaluateNodeAsElement(ctx VueContext, node *html.Node, depth int) 
 		return result, nil
 	}
 
+	// A conditional include (<template v-if="..." include="...">, or a shorthand component tag
+	// with v-if / v-else) is an include like any other once its branch has been chosen.
+	if node.Data == "template" && helpers.HasAttr(node, "include") {
+		return v.evalTemplate(ctx, []*html.Node{node}, ctx.stack.EnvMap(), depth+1)
+	}
+
 	// Special handling for template tags: evaluate bound attributes and set them in current scope
 	if node.Data == "template" {
 		// For templates, bound attributes modify the current scope (don't create new scope)
